@@ -39,6 +39,25 @@ def _build_committed(kind, hist, d, name="rec"):
     return files, view
 
 
+def _ub_read(path):
+    import json
+
+    with open(path, "rb") as f:
+        head = f.read(UB)
+    lines = head.split(b"\n", 2)
+    assert lines[0] == b"ih5_v01", lines[0]
+    return json.loads(lines[2].split(b"\x00", 1)[0])
+
+
+def _ub_write(path, doc):
+    import json
+
+    data = b"ih5_v01\n1024\n" + json.dumps(doc).encode() + b"\x00"
+    assert len(data) < UB
+    with open(path, "r+b") as f:
+        f.write(data)
+
+
 def _opens(cls, files):
     """Try to open; returns (True, dump) or (False, error text)."""
     try:
@@ -269,6 +288,23 @@ def check_struct(task):
                     return list(cf) + [fp]
 
                 faults.append((["fork-continue", k + 1], longer, True, "any"))
+        # duplicated patch_uuid (user block of container k re-labelled with the uuid of an older container j;
+        # the successor's prev_patch is adjusted so that the chain links stay consistent)
+        for j in range(nc):
+            for k in range(j + 1, nc):
+
+                def dupuuid(cf, j=j, k=k):
+                    uj = _ub_read(cf[j])
+                    uk = _ub_read(cf[k])
+                    uk["patch_uuid"] = uj["patch_uuid"]
+                    _ub_write(cf[k], uk)
+                    if k + 1 < len(cf):
+                        un = _ub_read(cf[k + 1])
+                        un["prev_patch"] = uj["patch_uuid"]
+                        _ub_write(cf[k + 1], un)
+                    return cf
+
+                expect_fail(["dup-uuid", j, k], dupuuid)
         if kind == "mf":
             # manifest of the newest container: removed / swapped with another record's / older one's
             def mrem(cf):
@@ -374,11 +410,29 @@ def run(tier, seed):
             chosen = [c for c in chosen if c[1] is not None]
         else:
             chosen = recs
-        sizes = pool.map("file_sizes", chosen, chunk=1)
+        # one record per class whose newest-but-one container is larger than common I/O chunk sizes
+        bigrecs = [(n, [["set", "/q", "abs"], ["B"], ["setbig", "/big", "abs", 150001], ["B"], ["set", "/r", "abs"]]) for n in ("S", "M")]
+        resb0 = pool.map("check_struct", bigrecs, chunk=1, item_deadline=900)
+        for t, r in zip(bigrecs, resb0):
+            if r == parallel.HANG:
+                continue
+            v, a, b = r
+            nstruct += a
+            npos += b
+            if v:
+                violations.append(v)
+        sizes = pool.map("file_sizes", chosen + bigrecs, chunk=1)
         btasks = []
         CH = 256
-        for (name, h), (fs, ms) in zip(chosen, sizes):
+        for (name, h), (fs, ms) in zip(chosen + bigrecs, sizes):
             for fi, sz in enumerate(fs):
+                if sz > 20000:
+                    # large container: every byte of the first and last 2 KiB, a fixed stride in between
+                    for lo in list(range(UB, UB + 2048, CH)) + list(range(sz - 2048, sz, CH)):
+                        btasks.append((name, h, fi, lo, lo + CH, False))
+                    for lo in range(UB + 2048, sz - 2048, 4099):
+                        btasks.append((name, h, fi, lo, lo + 1, False))
+                    continue
                 for lo in range(UB, sz, CH):
                     btasks.append((name, h, fi, lo, lo + CH, False))
             if name == "M" and ms[-1]:
@@ -406,7 +460,8 @@ def run(tier, seed):
         "rule": "records = every deduplicated narrow history of depth<=3 (1-3 containers), IH5Record and IH5MFRecord, all committed; "
         "structural faults per record: removal of each non-newest element, truncation to a window of lengths, extension by 1..8 bytes, "
         "same-index substitution by another record, foreign extra container, duplicate under a second name, fork replace / fork both, "
-        "manifest removed/foreign/older/extended/truncated; byte faults: every payload byte (offset>=1024) of every container and every byte of "
+        "duplicated patch_uuid (every pair j<k, links kept consistent), manifest removed/foreign/older/extended/truncated; one additional record per class with a 150 kB dataset "
+        "(structural faults; bytes: first and last 2 KiB of every large container completely, stride 4099 in between); byte faults: every payload byte (offset>=1024) of every container and every byte of "
         "the newest manifest, XOR 0xFF and +1" + (" for one 2- and one 3-container record per class" if q else " for all records")
         + "; non-trivial = a fault that makes the set incoherent (must be refused); positive controls = coherent sets that must open",
         "samples": [{"cfg": recs[len(recs) // 2][0], "history": recs[len(recs) // 2][1], "fault": ["remove", 0]}, {"cfg": btasks[0][0], "history": btasks[0][1], "fault": ["byte", btasks[0][2], btasks[0][3], "xor"]}],
